@@ -31,6 +31,9 @@ type Plan struct {
 	CorpusModes  []string
 	// CorpusDirs limits the corpus directories (quick tier); empty = all.
 	CorpusDirs []string
+	// CorpusTraceModes, when set, are the only type modes the corpus is run
+	// in under --trace.
+	CorpusTraceModes []string
 	// CorpusDirsPerRun is the number of directories given to one `ego test`
 	// command line (default 4).
 	CorpusDirsPerRun int
